@@ -465,6 +465,19 @@ def gen_tick(rng, run, bad=None):
                     a[2] = fr + rng.choice([0.125, vram / 2.0, vram])
                 if a[1] < 1:
                     a[1] = 1
+        elif bad == 'asg-resume-suspending':
+            # a "resume" of a container whose write-out is still in flight: its remaining operators are SUSPENDING and
+            # still belong to it, so the claim must be refused whatever the informational fields say
+            cands = [(pi, c) for pi, p in enumerate(ex.pools) for c in p.suspending_containers]
+            if cands:
+                pi, c = rng.choice(cands)
+                rest = [w.gid[o] for o in c.operators if st[w.gid[o]] == 3]
+                if rest:
+                    a[0] = rest
+                    a[4] = pi if rng.random() < 0.7 else a[4]
+                    a[3] = PRIO_VAL[c.priority]
+                    if len(a) == 5:
+                        a.append([run.cid(c), True, rng.random() < 0.3])
         elif bad == 'asg-two' and not r['multi']:
             free = [i for i in range(len(st)) if st[i] in (0, 5) and i not in taken]
             if free:
@@ -484,7 +497,7 @@ def gen_tick(rng, run, bad=None):
 
 BAD_KINDS = ['susp-mid', 'susp-dup', 'susp-unknown', 'susp-suspending', 'susp-suspended', 'susp-wrongpool', 'susp-badpool', 'asg-cpu+1', 'asg-ram+',
              'asg-pool', 'asg-empty', 'asg-cpu0', 'asg-ram0', 'asg-busy', 'asg-parent', 'asg-order', 'asg-two',
-             'asg-early-reuse', 'asg-dup-op']
+             'asg-early-reuse', 'asg-dup-op', 'asg-resume-suspending']
 
 
 def gen_history(rng, gen='G-exec', overcommit=None, max_ticks=None, p_bad=0.3, bad_kinds=None, bad_early=False,
@@ -509,9 +522,12 @@ def gen_history(rng, gen='G-exec', overcommit=None, max_ticks=None, p_bad=0.3, b
                 any(any(st_ == 0 for st_ in [run.w.states()[run.w.gid[o]] for o in c.operators])
                     for p in run.ex.pools for c in p.suspended_containers):
             bad_at = i            # suspended work is waiting to be re-assigned
-        if bad_at is not None and bad_kind == 'susp-suspending' and i < bad_at and rng.random() < 0.5 and \
-                any(p.suspending_containers for p in run.ex.pools):
+        if bad_at is not None and bad_kind in ('susp-suspending', 'asg-resume-suspending') and i < bad_at and \
+                rng.random() < 0.5 and any(p.suspending_containers for p in run.ex.pools):
             bad_at = i            # a write-out is in progress now: ask for that container's suspension
+        if bad_at == i and bad_kind == 'asg-resume-suspending' and i < n - 1 and \
+                not any(p.suspending_containers for p in run.ex.pools):
+            bad_at = i + 1        # wait for a write-out to be in flight
         t = gen_tick(rng, run, bad_kind if i == bad_at else None)
         cfg['ticks'].append(t)
         ent = run.step(t)
